@@ -108,12 +108,19 @@ type OnKill struct {
 
 func onKillReader(message any, reader *messages.Reader, codec messages.Codec) error {
 	m := message.(*OnKill)
-	return reader.ReadInto(&m.Killer, &m.Reason, &m.Poison)
+	var err error
+	if m.Killer, err = readActorRef(reader); err != nil {
+		return err
+	}
+	return reader.ReadInto(&m.Reason, &m.Poison)
 }
 
 func onKillWriter(message any, writer *messages.Writer, codec messages.Codec) error {
 	m := message.(*OnKill)
-	return writer.WriteFrom(m.Killer, m.Reason, m.Poison)
+	if err := writeActorRef(writer, m.Killer); err != nil {
+		return err
+	}
+	return writer.WriteFrom(m.Reason, m.Poison)
 }
 
 // Pong 表示 Ping 消息的响应。
@@ -164,12 +171,47 @@ type OnKilled struct {
 
 func onKilledReader(message any, reader *messages.Reader, codec messages.Codec) error {
 	m := message.(*OnKilled)
-	return reader.ReadInto(&m.Ref)
+	var err error
+	m.Ref, err = readActorRef(reader)
+	return err
 }
 
 func onKilledWriter(message any, writer *messages.Writer, codec messages.Codec) error {
 	m := message.(*OnKilled)
-	return writer.WriteFrom(m.Ref)
+	return writeActorRef(writer, m.Ref)
+}
+
+// writeActorRef 以 (地址, 路径) 的形式写入 ActorRef；nil 引用写入两个空串。
+// ActorRef 的实现类型没有可导出字段，无法通过反射序列化（此前写入 0 字节、读取时直接失败，远程 Kill/Watch 因此不可用）。
+func writeActorRef(writer *messages.Writer, ref ActorRef) error {
+	var address, path string
+	if ref != nil {
+		address, path = ref.GetAddress(), ref.GetPath()
+	}
+	return writer.WriteFrom(address, path)
+}
+
+// readActorRef 读取由 writeActorRef 写入的 ActorRef。
+func readActorRef(reader *messages.Reader) (ActorRef, error) {
+	var address, path string
+	if err := reader.ReadInto(&address, &path); err != nil {
+		return nil, err
+	}
+	if address == "" && path == "" {
+		return nil, nil
+	}
+	if messages.ActorRefFactory == nil {
+		return nil, fmt.Errorf("actor ref factory is not registered")
+	}
+	ref, err := messages.ActorRefFactory(address, path)
+	if err != nil {
+		return nil, err
+	}
+	actorRef, ok := ref.(ActorRef)
+	if !ok {
+		return nil, fmt.Errorf("actor ref factory returned %T", ref)
+	}
+	return actorRef, nil
 }
 
 type StreamEvent any
